@@ -5,6 +5,8 @@ from vlib import evidence, leafrt, runner, specmodel, xh
 
 CTX_DEPTH = {"quick": 3, "thorough": 4}
 PREAMBLE = [
+    "from vlib import classlemmas as _CL",
+    "_CL.INCLUDE_PACKAGE_ENVELOPES = True",
     "from vlib import leafrt as R",
     "R.ctx_cases((\"int\",), %d)",
     "from props import c12rt as V",
@@ -14,6 +16,9 @@ IMIN, IMAX = specmodel.INT_MIN, specmodel.INT_MAX
 
 def lemmas(tier):
     out = []
+    from vlib import classlemmas
+
+    classlemmas.INCLUDE_PACKAGE_ENVELOPES = True  # ResponseError.code is an `integer` of the base protocol
     fc = leafrt.field_cases()
     # "directly integer-typed": `integer | null` unions are not in the property's scope (no validator is generated for them)
     ints = [c for c in fc.values() if c.kind == "int" and c.direct]
